@@ -190,9 +190,18 @@ def patterns():
     ps = []
     ps.append(("const_fold", prog([inp(B), nd("Ones", [], t=B), nd("Ones", [], t=B), nd("Add", [2, 3]), nd("Multiply", [1, 4])])))
     ps.append(("equal_consts_diff_types", prog([inp(U), nd("Zeros", [], t=U), nd("Zeros", [], t=I8), nd("Add", [1, 2]), nd("A2B", [3]), nd("A2B", [4]), nd("Add", [5, 6])])))
+    # byte-identical constants of different types, each used where its type matters
+    ps.append(("equal_bytes_consts_u8_i8", prog([inp(U), inp(I8), const(U, [5]), const(I8, [5]), nd("Add", [1, 3]), nd("Multiply", [2, 4]), nd("CreateTuple", [5, 6])])))
+    ps.append(("equal_bytes_consts_b_u8", prog([inp(U), const(B, [1]), const(U, [1]), nd("MixedMultiply", [1, 2]), nd("Add", [4, 3])])))
+    ps.append(("equal_bytes_ones_b8_u8", prog([inp(B8), inp(U), nd("Ones", [], t=B8), const(U, [255]), nd("Add", [1, 3]), nd("Add", [2, 4]), nd("CreateTuple", [5, 6])])))
+    ps.append(("equal_bytes_scalar_array", prog([inp(U), const(U, [7]), const(A("u8", [1]), [7]), nd("Add", [1, 2]), nd("Add", [4, 3])])))
     ps.append(("tuple_get", prog([inp(B), inp(BA), nd("CreateTuple", [1, 2]), nd("TupleGet", [3], i=1), nd("Multiply", [4, 1])])))
     ps.append(("tuple_get_annotated", prog([inp(B), inp(BA), nd("CreateTuple", [1, 2]), dict(nd("TupleGet", [3], i=0), sends=[[0, 1]]), nd("Multiply", [4, 2])])))
     ps.append(("named_get", prog([inp(B), inp(U), nd("CreateNamedTuple", [1, 2], nm=["p", "q"]), nd("NamedTupleGet", [3], key="q"), nd("Add", [4, 2])])))
+    for ix in ([1], [2, 1], [0, 0]):
+        ps.append(("stacked_rows_get_%s" % "_".join(map(str, ix)),
+                   prog([inp(A("u8", [3])), inp(A("u8", [3])), nd("Multiply", [1, 2]), nd("Add", [1, 2]), nd("Subtract", [1, 2]),
+                         nd("CreateVector", [3, 4, 5], t=A("u8", [3])), nd("VectorToArray", [6]), nd("Get", [7], index=ix)])))
     ps.append(("vector_get_const", prog([inp(B), inp(B), nd("CreateVector", [1, 2], t=B), const(U64, [1]), nd("VectorGet", [3, 4]), nd("Add", [5, 1])])))
     ps.append(("a2v_get", prog([inp(BA), nd("ArrayToVector", [1]), const(U64, [0]), nd("VectorGet", [2, 3])])))
     ps.append(("zip_get", prog([inp(BA), inp(BA), nd("ArrayToVector", [1]), nd("ArrayToVector", [2]), nd("Zip", [3, 4]), const(U64, [1]), nd("VectorGet", [5, 6]), nd("TupleGet", [7], i=0), nd("TupleGet", [7], i=1), nd("Multiply", [8, 9])])))
@@ -230,6 +239,10 @@ def patterns():
     U64A = A("u64", [3])
     ps.append(("decompose_const", prog([const(U64A, [0, 0, 2]), nd("DecomposeSwitchingMap", [1], n=3), nd("TupleGet", [2], i=0)])))
     ps.append(("cuckoo_to_perm_const", prog([const(U64A, [1, 0, 18446744073709551615]), nd("CuckooToPermutation", [1])])))
+    # ... and two of them on the same input are two independent draws
+    ps.append(("cuckoo_to_perm_twice_same_dep", prog([inp(U64A), nd("CuckooToPermutation", [1]), nd("CuckooToPermutation", [1]), nd("CreateTuple", [2, 3])])))
+    ps.append(("decompose_twice_same_dep", prog([inp(U64A), nd("DecomposeSwitchingMap", [1], n=3), nd("DecomposeSwitchingMap", [1], n=3), nd("CreateTuple", [2, 3])])))
+    ps.append(("cuckoo_to_perm_twice_const", prog([const(U64A, [1, 0, 18446744073709551615]), nd("CuckooToPermutation", [1]), nd("CuckooToPermutation", [1]), nd("CreateTuple", [2, 3])])))
     ps.append(("random_permutation_twice", prog([nd("RandomPermutation", [], n=3), nd("RandomPermutation", [], n=3), nd("Add", [1, 2])])))
     # several permutations requested from one key with the same counter (as before uniquify_prf_id)
     ps.append(("perm_prf_same_iv", prog([nd("Random", [], t=KEY), nd("PermutationFromPRF", [1], iv=0, n=3), nd("PermutationFromPRF", [1], iv=0, n=3),
